@@ -280,6 +280,12 @@ class Namespace:
         self.name = name
 
 
+class PartialCall:
+    """functools.partial(f, *args, **kw)"""
+    def __init__(self, f, args, kw):
+        self.f, self.args, self.kw = f, list(args), dict(kw)
+
+
 class DictMethod:
     def __init__(self, d, name):
         self.d = d
@@ -765,7 +771,7 @@ class Interp:
         if isinstance(e, ast.Name):
             if e.id in env:
                 return env[e.id]
-            if e.id in ("np", "numpy", "copy", "math", "random", "itertools"):
+            if e.id in ("np", "numpy", "copy", "math", "random", "itertools", "functools"):
                 return Namespace(e.id)
             if e.id in _BUILTINS:
                 return Namespace("builtins." + e.id)
@@ -1013,6 +1019,12 @@ class Interp:
         return v
 
     def call(self, f, args, kw, node, env):
+        if isinstance(f, PartialCall):
+            return self.call(f.f, f.args + list(args), dict(f.kw, **kw), node, env)
+        if isinstance(f, Namespace) and f.name == "functools.partial":
+            if not args:
+                raise PathCrash("TypeError: partial() needs a callable")
+            return PartialCall(args[0], args[1:], kw)
         if isinstance(f, BoundMethod):
             return self.call_function(f.fn, f.obj, args, kw, owner=f.owner)
         if isinstance(f, RecordType):
